@@ -73,3 +73,30 @@ package nom
 // ghost: set only by the supervisor's Apply* (vm contracts), required by the chain's insert operations (chain contracts)
 //@ model AccountBlockTransaction verified bool
 //@ model MomentumTransaction verified bool
+
+// ---- C13: the protobuf codec (storage and wire form) preserves every field, hence the hash -----------------------------------
+// Stated for a block without descendants (the descendants go through the same two functions recursively) whose amount is in
+// the range the verifier admits. For Amount == nil the encoder emits 32 zero bytes and the decoder yields 0: equal hash,
+// different in-memory form - outside this lemma.
+// (contracts marked `inline` describe the recursive calls on descendants only: the outermost call is executed)
+//@ func AccountBlock.Proto(ab) -> (pb)
+//@   inline
+//@   ensures pb != nil && fresh(pb)
+//@   modifies nothing
+//@ func DeProtoAccountBlock(pb) -> (ab)
+//@   inline
+//@   ensures ab != nil && fresh(ab)
+//@   modifies nothing
+
+//@ lemma account_block_proto_roundtrip
+//@   vars ab *AccountBlock
+//@   assume ab != nil && ab.Amount != nil && 0 <= val(ab.Amount) && val(ab.Amount) < pow2(256) && len(ab.DescendantBlocks) == 0
+//@   let pb = ab.Proto()
+//@   let r = DeProtoAccountBlock(pb)
+//@   assert[scalars] r != nil && r.Version == ab.Version && r.ChainIdentifier == ab.ChainIdentifier && r.BlockType == ab.BlockType && r.Height == ab.Height && r.FusedPlasma == ab.FusedPlasma && r.Difficulty == ab.Difficulty && r.BasePlasma == ab.BasePlasma && r.TotalPlasma == ab.TotalPlasma
+//@   assert[hashes] r.Hash == ab.Hash && r.PreviousHash == ab.PreviousHash && r.FromBlockHash == ab.FromBlockHash && r.ChangesHash == ab.ChangesHash && r.MomentumAcknowledged.Hash == ab.MomentumAcknowledged.Hash && r.MomentumAcknowledged.Height == ab.MomentumAcknowledged.Height
+//@   assert[addresses] r.Address == ab.Address && r.ToAddress == ab.ToAddress && r.TokenStandard == ab.TokenStandard
+//@   assert[nonce] r.Nonce.Data == ab.Nonce.Data
+//@   assert[byte-strings] bytesval(r.Data) == bytesval(ab.Data) && bytesval(r.PublicKey) == bytesval(ab.PublicKey) && bytesval(r.Signature) == bytesval(ab.Signature)
+//@   assert[amount] r.Amount != nil && val(r.Amount) == val(ab.Amount)
+//@   assert[no-descendants] len(r.DescendantBlocks) == 0
